@@ -10,7 +10,8 @@ use super::{um_model, um_oracle};
 use crate::run::{ImplOut, Suite};
 
 /// qualifiers that discriminate between mechanisms and therefore stay in the signature
-const KEEP: [&str; 11] = [
+const KEEP: [&str; 13] = [
+    "-failed", "-lang",
     "-into-empty", "-over-existing", "-over-spill", "-over-array", "-over-empty-styled", "-hidden",
     "-full-col", "-full-row", "-cells", "-copy", "-cut",
 ];
